@@ -186,15 +186,25 @@ int vnacal_new_set_m_error(vnacal_new_t *vnp,
     if (use_spline) {
 	if (_vnacommon_spline_calc(frequencies - 1, frequency_vector,
 		    sigma_nf_vector, nf_c_vector) == -1) {
-	    _vnacal_error(vcp, VNAERR_SYSTEM, "malloc: %s",
-		    strerror(errno));
+	    if (errno == EINVAL) {
+		_vnacal_error(vcp, VNAERR_USAGE, "vnacal_new_set_m_error: "
+			"frequencies are too close together");
+	    } else {
+		_vnacal_error(vcp, VNAERR_SYSTEM, "malloc: %s",
+			strerror(errno));
+	    }
 	    return -1;
 	}
 	if (sigma_tr_vector != NULL &&
 		_vnacommon_spline_calc(frequencies - 1, frequency_vector,
 		    sigma_tr_vector, tr_c_vector) == -1) {
-	    _vnacal_error(vcp, VNAERR_SYSTEM, "malloc: %s",
-		    strerror(errno));
+	    if (errno == EINVAL) {
+		_vnacal_error(vcp, VNAERR_USAGE, "vnacal_new_set_m_error: "
+			"frequencies are too close together");
+	    } else {
+		_vnacal_error(vcp, VNAERR_SYSTEM, "malloc: %s",
+			strerror(errno));
+	    }
 	    return -1;
 	}
     }
